@@ -325,7 +325,9 @@ class ExpressionParser(ParserBase):
         did_something = False
         if pstate.is_next(self._f_derived_type) and _PREC_CALL > min_precedence:
             pstate.advance()
-            right_exp = self.parse_expression(pstate, _PREC_PLUS)
+            # The component name binds tighter than any operator: only further
+            # components, subscripts and calls belong to the right-hand side
+            right_exp = self.parse_expression(pstate, _PREC_UNARY)
             left_exp = pmbl.Lookup(left_exp, right_exp)
             did_something = True
         elif pstate.is_next(_times) and _PREC_TIMES > min_precedence:
